@@ -103,13 +103,17 @@ def portAttr (svcs : List Service) (o : Opts) (s : Nat) (m : String) : Except Er
   let p ← defaultPort svcs o s
   findMethod svcs s p m
 
+/-- `ServiceSelector.__ds` followed by the default / first choice of `__getattr__`. -/
+def defaultService (svcs : List Service) (o : Opts) : Except ErrK Nat :=
+  match o.service with
+  | some ds => findService svcs ds
+  | none => findService svcs (.idx 0)
+
 /-- One selector step. -/
 def step (svcs : List Service) (o : Opts) (v : Val) (st : Step) : Except ErrK Val :=
   match v, st with
   | .svcSel, .attr m => do
-    let s ← match o.service with
-      | some ds => findService svcs ds
-      | none => findService svcs (.idx 0)
+    let s ← defaultService svcs o
     portAttr svcs o s m
   | .svcSel, .item k =>
     if svcs.length = 1 then do
